@@ -553,7 +553,7 @@ func familyRenderAsPath(name string, strs []string) fw.Family {
 					ox, oy := sp.glyphOrigin(gi)
 					// glyph units -> scale -> rotate with the span -> translate -> view
 					c, sn := rot(sp.rotation, 1, 0)
-					local := affine{f * c, f * sn, -f * sn, f * c, ox, oy}
+					local := affine{f * c, f * sn, f * (sp.italic*c - sn), f * (sp.italic*sn + c), ox, oy}
 					placeOutline(segs, compose(local, affine(dr.m)), &want, &wantSp)
 					nGlyphs++
 				}
